@@ -98,7 +98,7 @@ pub struct RunResult {
     pub statuses: String,
     /// freeze runs: the structure the solo thread saw (taken while the writer was suspended)
     pub frozen_dump: Option<CDump>,
-    pub trace_sites: Vec<(u16, &'static str, u32, u8)>,
+    pub trace_sites: Vec<hooks::TraceSite>,
     /// happens-before tracker: dereferences checked, of which of objects allocated by another
     /// thread, acquire joins
     pub hb_stats: (u64, u64, u64),
@@ -142,7 +142,27 @@ fn run_op<S: BuildHasher>(
     };
     match op {
         COp::Get(k) => {
+            // cost of a lookup in a crowded bin while nobody writes (C06): every key of the program
+            // collides, the bin is a tree, the program only reads
+            let read_only = p.hasher == H_ZERO
+                && p.cap >= 64
+                && p.prefill.len() >= 16
+                && p.threads.iter().all(|ops| ops.iter().all(|o| matches!(o, COp::Get(_) | COp::ContainsKey(_) | COp::GetKeyValue(_))));
+            if read_only {
+                reset_cmp();
+            }
             let r = if pin { mref.get(&Key::probe(*k)) } else { map.get(&Key::probe(*k), &guard) };
+            if read_only {
+                let (e, o) = cmp_calls();
+                let n = p.prefill.len();
+                let bound = (4.0 * ((n + 1) as f64).log2()).ceil() as u64;
+                if e + o > bound {
+                    fails.lock().unwrap().push(format!(
+                        "C06: lookup of key {} by thread {} in a tree bin of {} nodes cost {} key comparisons (> 4*log2(n+1) = {}) although no writer exists",
+                        k, tid, n, e + o, bound
+                    ));
+                }
+            }
             match r {
                 Some(v) => {
                     let out = Res::Val(v.payload);
@@ -1059,6 +1079,65 @@ pub fn gen_program(rng: &mut SplitMix64, kind: u64) -> Program {
                 _ => COp::Compute(victim, 0),
             }]);
             p.threads.push(vec![if rng.chance(1, 2) { COp::Get(pre) } else { COp::Iter }]);
+        }
+        // only readers, three or more, on one big tree bin (C06: lookups stay logarithmic however
+        // many readers share the read lock)
+        13 => {
+            p.hasher = H_ZERO;
+            p.cap = 64;
+            let n = 24 + rng.below(40) as u32;
+            p.prefill = (0..n).collect();
+            p.universe = n + 2;
+            p.linger = 0;
+            let nt = 3 + rng.below(2) as usize;
+            for _ in 0..nt {
+                let m = 1 + rng.below(2);
+                p.threads.push((0..m).map(|_| COp::Get(rng.below((n + 2) as u64) as u32)).collect());
+            }
+        }
+        // the head of a list bin removed while a resize is about to migrate that bin
+        12 => {
+            p.cap = 8;
+            p.hasher = H_IDENTITY;
+            // keys 5, 21, 37 share bin 5 of the 16-bin table (and 5 / 21 / 5 of the 32-bin one)
+            p.prefill = vec![0, 1, 2, 3, 5, 21, 37, 6, 7, 8, 9];
+            p.universe = 40;
+            p.linger = rng.below(2) as u32;
+            let victim = [5u32, 21, 37][rng.below(3) as usize];
+            p.threads.push(vec![COp::Insert(10, { val += 1; val }), COp::Get(victim)]);
+            p.threads.push(vec![match rng.below(4) {
+                0 => COp::Remove(victim),
+                1 => COp::Retain(0),
+                _ => COp::Compute(victim, 0),
+            }]);
+            if nthreads > 2 {
+                p.threads.push(vec![if rng.chance(1, 2) { COp::Get(victim) } else { COp::Iter }]);
+            }
+        }
+        // two resize generations back to back (16 -> 32 -> 64): the territory of finding F6
+        11 => {
+            p.cap = 8;
+            p.hasher = if rng.chance(2, 3) { H_IDENTITY } else { H_MIX };
+            p.prefill = (0..11).collect();
+            p.universe = 40;
+            p.linger = 0;
+            let mut next = 11u32;
+            for t in 0..nthreads {
+                let n = if t == 0 { 1 + rng.below(2) } else { 5 + rng.below(5) };
+                let mut ops = Vec::new();
+                for _ in 0..n {
+                    ops.push(COp::Insert(next, { val += 1; val }));
+                    next += 1;
+                }
+                if rng.chance(1, 2) {
+                    // a key whose bin is forwarded early in the first resize
+                    ops.insert(0, COp::Insert(31 + t as u32 * 32 % 8, { val += 1; val }));
+                }
+                if rng.chance(1, 3) {
+                    ops.push(COp::Get(rng.below(next as u64) as u32));
+                }
+                p.threads.push(ops);
+            }
         }
         // a bin at the treeify threshold while others drain it (the race behind finding F5)
         9 => {
